@@ -11,6 +11,11 @@ structural measure are fuelled (fuel is computed from the sizes of the two trees
 reported as `fuelOut` and makes the correspondence fail, it never silently truncates).
 `visible_depth` is `unsigned`: decrement wraps like in C.
 
+`fixed : Bool` selects the variant of the included-range override test: `false` = the code as it
+is (`iterator_end_position(&old_iter)`), `true` = with fixes/C04-range-override-in-padding.diff
+(`iterator_compared_end_byte`).  `checks/c04.py` looks at the source to tell the driver which one
+/repo currently has; every theorem is stated for both.
+
 The function also returns the *trace* of `(start, end)` pairs it handed to `ts_range_array_add`;
 the result is by construction the fold of `addRev` over that trace (`changedRanges_eq_fold`).
 -/
@@ -212,6 +217,14 @@ def iterCompare (al : AliasTable) (o n : Iter) : Cmp :=
     then .mayDiffer
     else .matches
 
+/-- End of the subtree that `iterator_compare` looks at (`iterator_compared_end_byte` of
+fixes/C04-range-override-in-padding.diff): in a node's padding that is the enclosing visible node. -/
+def Iter.comparedEndByte (al : AliasTable) (it : Iter) : Nat :=
+  let e := it.endPosition.bytes
+  match it.visibleState al with
+  | (some t, _, start) => max e (start + t.totalBytes)
+  | (none, _, _) => e
+
 def catchUp (al : AliasTable) (treeFuel : Nat) : Nat → Iter → Nat → Iter × Bool
   | 0, it, _ => (it, true)
   | fuel + 1, it, nextPos =>
@@ -241,9 +254,10 @@ structure LoopSt where
   fuelOut : Bool := false
 
 /-- One iteration of the `do … while` body. -/
-def loopBody (al : AliasTable) (diffs : List TSRange) (treeFuel : Nat) (s : LoopSt) : LoopSt :=
+def loopBody (al : AliasTable) (fixed : Bool) (diffs : List TSRange) (treeFuel : Nat) (s : LoopSt) : LoopSt :=
   let cmp0 := iterCompare al s.o s.n
-  let cmp := if cmp0 == .matches && intersects diffs s.diffIdx s.position.bytes s.o.endPosition.bytes
+  let spanEnd := if fixed then s.o.comparedEndByte al else s.o.endPosition.bytes
+  let cmp := if cmp0 == .matches && intersects diffs s.diffIdx s.position.bytes spanEnd
              then Cmp.mayDiffer else cmp0
   let (o, n, isChanged, nextPosition) :=
     match cmp with
@@ -268,11 +282,11 @@ def loopBody (al : AliasTable) (diffs : List TSRange) (treeFuel : Nat) (s : Loop
   { o := o, n := n, position := nextPosition, nextPosition := nextPosition, diffIdx := diffIdx, trace := trace, matched := matched,
     fuelOut := s.fuelOut || f1 || f2 }
 
-def mainLoop (al : AliasTable) (diffs : List TSRange) (treeFuel : Nat) : Nat → LoopSt → LoopSt
+def mainLoop (al : AliasTable) (fixed : Bool) (diffs : List TSRange) (treeFuel : Nat) : Nat → LoopSt → LoopSt
   | 0, s => { s with fuelOut := true }
   | fuel + 1, s =>
-    let s := loopBody al diffs treeFuel s
-    if !s.o.done && !s.n.done then mainLoop al diffs treeFuel fuel s else s
+    let s := loopBody al fixed diffs treeFuel s
+    if !s.o.done && !s.n.done then mainLoop al fixed diffs treeFuel fuel s else s
 
 structure Changed where
   ranges : List TSRange
@@ -282,7 +296,7 @@ structure Changed where
   fuelOut : Bool
 
 /-- The add calls of `ts_subtree_get_changed_ranges` in order: (before and inside the loop, after the loop). -/
-def changedTrace (al : AliasTable) (old new : Tree) (diffs : List TSRange) :
+def changedTrace (al : AliasTable) (fixed : Bool) (old new : Tree) (diffs : List TSRange) :
     List (Length × Length) × List (Length × Length) × List (Nat × Nat) × Bool :=
   let o := iterNew old
   let n := iterNew new
@@ -293,7 +307,7 @@ def changedTrace (al : AliasTable) (old new : Tree) (diffs : List TSRange) :
     else if p.bytes > np.bytes then ([(np, p)], p, p)
     else ([], p, np)
   let treeFuel := old.size + new.size + 2
-  let s := mainLoop al diffs treeFuel (4 * treeFuel + 8)
+  let s := mainLoop al fixed diffs treeFuel (4 * treeFuel + 8)
     { o := o, n := n, position := position, nextPosition := nextPosition, diffIdx := 0, trace := pre, matched := [] }
   let os := old.totalSize
   let ns := new.totalSize
@@ -305,8 +319,8 @@ def foldAdd (racc : List TSRange) (tr : List (Length × Length)) : List TSRange 
   tr.foldl (fun acc p => addRev acc p.1 p.2) racc
 
 /-- `ts_subtree_get_changed_ranges`. -/
-def changedRanges (al : AliasTable) (old new : Tree) (diffs : List TSRange) : Changed :=
-  let (main, post, m, f) := changedTrace al old new diffs
+def changedRanges (al : AliasTable) (fixed : Bool) (old new : Tree) (diffs : List TSRange) : Changed :=
+  let (main, post, m, f) := changedTrace al fixed old new diffs
   { ranges := (foldAdd (foldAdd [] main) post).reverse, main := main, post := post, matched := m, fuelOut := f }
 
 /-- A call to `ts_range_array_add` is *admissible* for the current (reversed) array when it either
@@ -329,7 +343,7 @@ def traceBound : List (Length × Length) → Nat
   | (_, e) :: rest => max e.bytes (traceBound rest)
 
 /-- `ts_tree_get_changed_ranges`. -/
-def treeChangedRanges (al : AliasTable) (old new : TreeDump) : Changed :=
-  changedRanges al old.root new.root (symDiff old.ranges new.ranges)
+def treeChangedRanges (al : AliasTable) (fixed : Bool) (old new : TreeDump) : Changed :=
+  changedRanges al fixed old.root new.root (symDiff old.ranges new.ranges)
 
 end TsVerif.C04
